@@ -4,7 +4,9 @@ package mqttproxy
 
 // C17 (b): maxAllowedConnection of the MQTT proxy.
 //
-// A real Broker (newBroker, loopback listener on an ephemeral port, in-memory session store) is
+// A real Broker (newBroker - the only constructor there is; MQTTProxy.Init cannot be used per case
+// because api.RegisterAPIs blocks after ten registrations without an API server - on a port the
+// harness proposes, in-memory session store, ended with Broker.close) is
 // driven by raw MQTT 3.1.1 clients (paho packet codec only). A case is a sequence of bursts; in a
 // burst every client id does at most one thing (connect a new id / take over a held id / close),
 // all sockets are dialled first and the CONNECT packets are written behind a barrier. When the
@@ -31,11 +33,14 @@ import (
 	"fmt"
 	"io"
 	"net"
+	"os"
+	"reflect"
 	"sort"
 	"strings"
 	"sync"
 	"testing"
 	"time"
+	"unsafe"
 
 	"github.com/eclipse/paho.mqtt.golang/packets"
 	"github.com/megaease/easegress/pkg/context"
@@ -60,6 +65,7 @@ type vfC17MRig struct {
 	mu   sync.Mutex
 	cond *sync.Cond
 	b    *Broker
+	reg  *vfC17RegView // nil: registry not reachable, socket-level fallbacks are used
 	addr string
 	cap  int
 
@@ -83,6 +89,65 @@ type vfC17MRig struct {
 	cleanOf     map[string]bool
 
 	timeout bool
+
+	// fallback only: a cap excess whose key still has to be decided by pinging the holders
+	pendingCap []*vfC17Cli
+}
+
+// vfC17RegView reads the broker's client registry. The map and the lock that guards it are found
+// by TYPE at run time (map[string]*Client; the broker itself when it is a sync.Locker, else its first
+// mutex field), never by name. nil when they cannot be found (or VERIF_C17_NOREFLECT is set): the
+// harness then falls back to what can be seen on the sockets alone.
+type vfC17RegView struct {
+	lock sync.Locker
+	m    *map[string]*Client
+}
+
+func vfC17RegistryOf(b *Broker) *vfC17RegView {
+	if os.Getenv("VERIF_C17_NOREFLECT") != "" || b == nil {
+		return nil
+	}
+	view := &vfC17RegView{}
+	if l, ok := interface{}(b).(sync.Locker); ok {
+		view.lock = l
+	}
+	v := reflect.ValueOf(b).Elem()
+	wantMap := reflect.TypeOf(map[string]*Client{})
+	for i := 0; i < v.NumField(); i++ {
+		f := v.Field(i)
+		if !f.CanAddr() {
+			continue
+		}
+		switch {
+		case f.Type() == wantMap && view.m == nil:
+			view.m = (*map[string]*Client)(unsafe.Pointer(f.UnsafeAddr()))
+		case view.lock == nil && f.Type() == reflect.TypeOf(sync.RWMutex{}):
+			view.lock = (*sync.RWMutex)(unsafe.Pointer(f.UnsafeAddr()))
+		case view.lock == nil && f.Type() == reflect.TypeOf(sync.Mutex{}):
+			view.lock = (*sync.Mutex)(unsafe.Pointer(f.UnsafeAddr()))
+		}
+	}
+	if view.m == nil || view.lock == nil {
+		return nil
+	}
+	return view
+}
+
+func (v *vfC17RegView) ids() map[string]struct{} {
+	out := map[string]struct{}{}
+	v.lock.Lock()
+	for id := range *v.m {
+		out[id] = struct{}{}
+	}
+	v.lock.Unlock()
+	return out
+}
+
+func (v *vfC17RegView) size() int {
+	v.lock.Lock()
+	n := len(*v.m)
+	v.lock.Unlock()
+	return n
 }
 
 func (r *vfC17MRig) logf(format string, args ...interface{}) {
@@ -160,14 +225,30 @@ func (r *vfC17MRig) onAccepted(c *vfC17Cli) {
 
 // capViolation names the violation after what the broker's own registry says about the holders.
 func (r *vfC17MRig) capViolation() {
-	reg := r.b.currentClients()
 	ids := r.heldIDs()
+	if r.reg == nil {
+		// no registry view: which holder the broker has dropped is found out later on the sockets
+		// (vfC17PingDiagnosis), outside the lock and after the burst's goroutines have ended
+		if r.pendingCap == nil {
+			for _, id := range ids {
+				r.pendingCap = append(r.pendingCap, r.held[id])
+			}
+		}
+		return
+	}
+	reg := r.reg.ids()
 	var missing []string
 	for _, id := range ids {
 		if _, ok := reg[id]; !ok {
 			missing = append(missing, id)
 		}
 	}
+	key := r.capKey(missing)
+	r.viols = append(r.viols, [2]string{key, fmt.Sprintf("%d clients hold an accepted CONNACK on an open socket (%v), maxAllowedConnection=%d; broker registry has %d entries, holders missing from it: %v", len(ids), ids, r.cap, len(reg), missing)})
+}
+
+// capKey names a cap excess after the history of the first holder the broker no longer serves.
+func (r *vfC17MRig) capKey(missing []string) string {
 	key := "more-connected-clients-than-maxAllowedConnection"
 	if len(missing) > 0 {
 		id := missing[0]
@@ -196,7 +277,42 @@ func (r *vfC17MRig) capViolation() {
 			key = "connected-client-missing-from-registry"
 		}
 	}
-	r.viols = append(r.viols, [2]string{key, fmt.Sprintf("%d clients hold an accepted CONNACK on an open socket (%v), maxAllowedConnection=%d; broker registry has %d entries, holders missing from it: %v", len(ids), ids, r.cap, len(reg), missing)})
+	return key
+}
+
+// vfC17PingDiagnosis is the socket-level substitute for looking at the registry: every holder sends
+// PINGREQ. A client the broker still serves answers PINGRESP; one it has dropped internally (flagged
+// disconnected, socket left open) gets its socket closed after the broker has read the packet.
+// Only used to NAME an excess that is already established; "no answer in time" counts as served.
+func (r *vfC17MRig) vfC17PingDiagnosis() {
+	r.mu.Lock()
+	holders := r.pendingCap
+	r.pendingCap = nil
+	r.mu.Unlock()
+	if len(holders) == 0 {
+		return
+	}
+	var ids, missing []string
+	for _, c := range holders {
+		ids = append(ids, c.id)
+		packets.NewControlPacket(packets.Pingreq).Write(c.conn)
+		c.conn.SetReadDeadline(time.Now().Add(vfC17MqttWait))
+		p, err := packets.ReadPacket(c.conn)
+		c.conn.SetReadDeadline(time.Time{})
+		if err != nil {
+			if ne, ok := err.(net.Error); !ok || !ne.Timeout() {
+				missing = append(missing, c.id)
+			}
+			continue
+		}
+		if _, ok := p.(*packets.PingrespPacket); !ok {
+			missing = append(missing, c.id)
+		}
+	}
+	r.mu.Lock()
+	key := r.capKey(missing)
+	r.viols = append(r.viols, [2]string{key, fmt.Sprintf("%d clients hold an accepted CONNACK on an open socket (%v), maxAllowedConnection=%d; holders that no longer get PINGRESP (socket closed by the broker on the next packet): %v", len(ids), ids, r.cap, missing)})
+	r.mu.Unlock()
 }
 
 func (r *vfC17MRig) heldIDs() []string {
@@ -263,9 +379,15 @@ func vfC17HardClose(c net.Conn) {
 
 // settle waits until the broker's own registry has dropped every id the harness does not hold.
 func (r *vfC17MRig) settle() bool {
+	if r.reg == nil {
+		// nothing on the sockets tells when the broker has finished a teardown: short pause, and the
+		// assertions that need a settled registry ("refused although below the cap") are not made
+		time.Sleep(2 * time.Millisecond)
+		return true
+	}
 	deadline := time.Now().Add(vfC17MqttWait)
 	for {
-		reg := r.b.currentClients()
+		reg := r.reg.ids()
 		r.mu.Lock()
 		extra := 0
 		for id := range reg {
@@ -328,18 +450,25 @@ func TestVerifC17Mqtt(t *testing.T) {
 		r := &vfC17MRig{cap: capN, held: map[string]*vfC17Cli{}, tookOver: map[string]bool{}, takingOver: map[string]bool{}, reconnected: map[string]bool{}, holdIDs: map[string]bool{},
 			closedOnce: map[string]bool{}, cleanOf: map[string]bool{}}
 		r.cond = sync.NewCond(&r.mu)
-		// port 0: the kernel picks the port atomically inside newBroker; a transient failure (ephemeral
-		// range momentarily exhausted by other processes) is retried for about 25 s
+		// The harness proposes the port (so that it never has to look at the broker's listener):
+		// candidates outside the kernel's ephemeral range, where no other process lands by accident;
+		// newBroker returns nil when the port is taken and the next candidate is tried.
+		portSeed := rapid.IntRange(0, 21999).Draw(rt, "portSeed") // not part of the case
 		for attempt := 0; attempt < 60 && r.b == nil; attempt++ {
+			spec.Port = uint16(10000 + (portSeed+attempt*7919)%22000)
 			r.b = newBroker(spec, newStorage(nil), r, func(string, string) ([]string, error) { return nil, nil })
 			if r.b == nil {
-				time.Sleep(vfC17MBackoff(attempt))
+				time.Sleep(vfC17MBackoff(attempt / 6))
 			}
 		}
 		if r.b == nil {
-			rt.Fatalf("VF-INCONCLUSIVE broker could not listen on an ephemeral port in 60 attempts")
+			rt.Fatalf("VF-INCONCLUSIVE broker could not listen on any of 60 candidate ports")
 		}
-		r.addr = fmt.Sprintf("127.0.0.1:%d", r.b.listener.Addr().(*net.TCPAddr).Port)
+		r.addr = fmt.Sprintf("127.0.0.1:%d", spec.Port)
+		r.reg = vfC17RegistryOf(r.b)
+		if r.reg == nil {
+			vf.Class("probe-unavailable:broker-registry (ping diagnosis, no settled-registry assertions)")
+		}
 		var allConns []net.Conn
 		var connsMu sync.Mutex
 		defer func() {
@@ -358,7 +487,17 @@ func TestVerifC17Mqtt(t *testing.T) {
 		inconclusive := ""
 
 		finish := func() bool { // returns true when the case must be abandoned
+			r.vfC17PingDiagnosis()
 			r.mu.Lock()
+			if r.reg == nil {
+				kept := r.viols[:0]
+				for _, v := range r.viols {
+					if v[0] != "connect-refused-although-below-cap" { // needs a settled registry
+						kept = append(kept, v)
+					}
+				}
+				r.viols = kept
+			}
 			viols := append([][2]string(nil), r.viols...)
 			hist := strings.Join(r.hist, "; ")
 			r.mu.Unlock()
@@ -468,7 +607,11 @@ func TestVerifC17Mqtt(t *testing.T) {
 					r.closeCli(x, graceful)
 					deadline := time.Now().Add(vfC17MqttWait)
 					for {
-						if _, still := r.b.currentClients()[x]; !still {
+						if r.reg == nil {
+							time.Sleep(2 * time.Millisecond)
+							break
+						}
+						if _, still := r.reg.ids()[x]; !still {
 							break
 						}
 						if time.Now().After(deadline) {
@@ -617,9 +760,10 @@ func TestVerifC17Mqtt(t *testing.T) {
 			go func() {
 				max := 0
 				for {
-					r.b.Lock()
-					n := len(r.b.clients)
-					r.b.Unlock()
+					n := 0
+					if r.reg != nil {
+						n = r.reg.size()
+					}
 					if n > max {
 						max = n
 					}
